@@ -456,7 +456,7 @@ pub fn history(index: u64, mut rng: Rng, cfg: &HistCfg, focus: &str) -> Outcome 
                 .collect()
         };
         let w_upd = if updatable.is_empty() { 0 } else { 6 };
-        let kind = rng.weighted(&[w_pre, w_prove, w_post, 7, 8, 4, 7, 3, 2, 5, 4, 18, 6, 2, 3, w_upd]);
+        let kind = rng.weighted(&[w_pre, w_prove, w_post, 7, 8, 4, 7, 3, 2, 5, if focus == "C14" { 9 } else { 4 }, 18, 6, 2, 3, w_upd, if focus == "C14" { 5 } else { 2 }, 1]);
         let (name, r, inv): (&'static str, vm_api::MessageResult, Option<Inv>) = match kind {
             0 => {
                 let n = 1 + rng.below(4);
@@ -725,6 +725,19 @@ pub fn history(index: u64, mut rng: Rng, cfg: &HistCfg, focus: &str) -> Outcome 
                     2 => fil(rng.range(1, 100_000)),
                     _ => &pre.balance + atto(1),
                 };
+                // with a third-party beneficiary: often the beneficiary itself asks, and often right at the
+                // term's expiration epoch (-1, 0, +1)
+                let third_party = pre.info.beneficiary != pre.info.owner;
+                let who = if third_party && rng.chance(1, 2) { pre.info.beneficiary } else { who };
+                if third_party && pre.info.term.2 > epoch && pre.info.term.2 - epoch < 6000 && rng.chance(1, 2) {
+                    let to = (pre.info.term.2 + rng.range(-1, 1)).max(epoch + 1);
+                    advance_monitored(&w, &mut mon, to, cfg.dense, &mut o, &mut stop);
+                    if stop {
+                        break;
+                    }
+                    pre = snap_miner(&w.v, &m.addr).unwrap();
+                    o.count("withdrawals_aimed_at_term_expiration");
+                }
                 let (r, i) = withdraw(&w.v, &m, &who, &amt);
                 ("withdraw", r, i)
             }
@@ -841,6 +854,22 @@ pub fn history(index: u64, mut rng: Rng, cfg: &HistCfg, focus: &str) -> Outcome 
                     }
                 }
                 ("replica_update", r, i)
+            }
+            16 => {
+                // the owner names a third-party beneficiary (or takes the role back); the nominee confirms
+                let nominee = if pre.info.beneficiary != pre.info.owner && rng.chance(1, 3) { pre.info.owner } else { w.others[2] };
+                let back = nominee == pre.info.owner;
+                let p = fil_actor_miner::ChangeBeneficiaryParams {
+                    new_beneficiary: nominee,
+                    new_quota: if back { TokenAmount::zero() } else { fil(rng.range(1, 2000)) },
+                    new_expiration: if back { 0 } else { epoch + rng.range(20, 5000) },
+                };
+                let (r1, _) = change_beneficiary(&w.v, &m, &m.owner, &p);
+                if r1.code.is_success() && pre.info.beneficiary != pre.info.owner && rng.chance(3, 4) {
+                    let _ = change_beneficiary(&w.v, &m, &pre.info.beneficiary, &p);
+                }
+                let (r, i) = change_beneficiary(&w.v, &m, &nominee, &p);
+                ("change_beneficiary", r, i)
             }
             _ => {
                 let amt = fil(rng.range(1, 1000));
